@@ -87,9 +87,11 @@ T = {
     ),
     "C09": dict(
         technique=_AI + ": path rewrites interpreted on all 20 letters, 400 ordered pairs and (thorough) 8000 triples with symbolic arguments, compared component-wise as polynomial identities with a reference interpreter of SVG 1.1 section 8.3",
-        explanation="explicit_lines, expand_shorthand, absolute, relative, arcs_to_cubics (arc callback stubbed: C12), move, as_cmd_seq, subpath splitting and the shape builders (rect with "
-                    "rx/ry defaulting and clamping, circle, ellipse, line, polygon, polyline) each describe the same curve as their input and deliver the letter set they promise; "
-                    "coordinate index tables equal the specification; round_floats rounds every number and nothing else; near-start snapping (abs(..) <= 1e-9) is checked on both sides.",
+        explanation="explicit_lines, expand_shorthand, absolute, relative, arcs_to_cubics (arc callback stubbed: C12), move, subpath splitting and the shape builders (rect with "
+                    "rx/ry defaulting and clamping on concrete radii, circle, ellipse, line, polygon, polyline read back through the grammar) each describe the same curve as their input and "
+                    "deliver the letter set they promise; as_cmd_seq hands Skia the source curve in absolute M L C Q Z (shorthands resolved against the source's previous segment, "
+                    "arcs replaced by their cubics); coordinate index tables equal the specification; round_floats rounds every number and nothing else; on near-start snapping "
+                    "paths (abs(..) <= 1e-9) the curve is compared modulo the snapped differences.",
         not_decided="floating-point rounding of the arithmetic; arc geometry (C12)",
         assumptions=["identities hold in exact rational arithmetic", "round() is CPython's"],
     ),
@@ -155,11 +157,15 @@ T = {
         assumptions=["dict / lxml attribute iteration order is insertion order"],
     ),
     "C17": dict(
-        technique="loop and call-graph-cycle inventory with structurally checked termination arguments; ambiguous-iteration detection on regex automata; effect lint of the XML entry; " + _AI + " on documents with reference cycles",
-        explanation="Every while loop / self-growing for loop has a termination argument from a closed list (worklist over tree nodes, parent walk, advancing index, shrinking remainder), "
-                    "every call-graph cycle is structural descent, flag-bounded, or reference following under a visited set / cycle pre-check; fifteen documents with use / clip-path / "
-                    "gradient-href cycles (self, mutual, through groups, mixed) interpreted: each ends in an exception or a finite document; no regular expression has an ambiguous "
-                    "iteration (exponential backtracking); one XML entry with resolve_entities=False; topicosvg raises when the gate reports violations.",
+        technique="loop inventory with structurally checked termination arguments, falling back on " + _AI + " of the documents that exercise a loop (schematic document, 24 documents with cyclic / dangling / sloppy references); ambiguous-iteration detection on regex automata; effect lint of the XML entry",
+        explanation="Every while loop, every for loop over an endless iterator and every for loop whose body grows its own sequence is given a termination argument from a closed list "
+                    "(worklist over tree nodes, parent walk, bounded counter, advancing index / shrinking remainder over non-nullable token regexes, guarded reference walk). Where the "
+                    "loop's own text does not establish one (the guard lives in a helper, the pushed nodes come from a generator), the loop must be exercised by the interpreted "
+                    "documents and each of them must end - otherwise the check gives up (exit 2) rather than guess. 24 documents with use / clip-path / gradient-href cycles (self, "
+                    "mutual, through groups, chains running into a cycle further down, both document orders, SVG 2 href, blanks and line breaks in the reference) and dangling "
+                    "references are interpreted: each ends in an exception or a finite document, an unbounded expansion shows as an exhausted step budget. Recursion is inventoried only: "
+                    "its depth is bounded by the interpreter (RecursionError is an exception). No regular expression has an ambiguous iteration (exponential backtracking); one XML "
+                    "entry with resolve_entities=False; topicosvg raises when the gate reports violations.",
         not_decided="running time and memory proportional to the expanded document",
         assumptions=["Python's recursion limit turns unbounded recursion into RecursionError (an exception, allowed)"],
     ),
